@@ -166,10 +166,12 @@ def build(ctx, conv, shape, *, bounds='none', as_coords=True, nan_cells=None, da
                 for i in range(nx):
                     for c in range(4):
                         a, b = off[c]
+                        # (nominal cells are 1/16 larger than the lattice: stored corners of neighbours need not coincide,
+                        #  witnesses have slightly overlapping cells)
                         latb[j, i, c] = ctx.real(f'latb{j}_{i}_{c}', flag=bflag[j, i],
-                                                 hint=float(nlat[j, i] + a * 0.125 + b * 0.5))
+                                                 hint=float(nlat[j, i] + (a * 0.125 + b * 0.5) * 1.0625))
                         lonb[j, i, c] = ctx.real(f'lonb{j}_{i}_{c}', flag=bflag[j, i],
-                                                 hint=float(nlon[j, i] + a * 1.0 - b * 0.25))
+                                                 hint=float(nlon[j, i] + (a * 1.0 - b * 0.25) * 1.0625))
             kw = dict(lat_bounds=latb, lon_bounds=lonb)
             P.corners = lambda n: [(lonb[n // nx, n % nx, c], latb[n // nx, n % nx, c]) for c in range(4)]
             P.hole = lambda n: bflag[n // nx, n % nx]
@@ -471,9 +473,12 @@ class RecordingTree:
 
 
 class SymUnion:
-    """shapely.unary_union contract: the union of exactly the geometries given."""
-    def __init__(self, geoms):
+    """shapely.unary_union contract: the union of exactly the geometries given.
+    coverage=True: built by a coverage union, which is the union only when the parts form a valid coverage (match edge
+    to edge, no overlaps) - not something arbitrary stored bounds guarantee."""
+    def __init__(self, geoms, coverage=False):
         self.parts = list(geoms)
+        self.coverage = coverage
 
     @property
     def bounds(self):
@@ -507,7 +512,9 @@ def patches(valid_mode='all'):
             (base, 'numpy', np),
             (base, 'int', env.sym_int),
             (base, 'shapely', env.Proxy(shapely, dict(is_valid=make_is_valid(valid_mode),
-                                                      unary_union=lambda g, **k: SymUnion(g)))),
+                                                      unary_union=lambda g, **k: SymUnion(g),
+                                                      coverage_union_all=lambda g, **k: SymUnion(g, coverage=True),
+                                                      union_all=lambda g, **k: SymUnion(g)))),
             (base, 'STRtree', RecordingTree),
             (grid, 'numpy', np),
             (grid, 'box', SymBox),
